@@ -175,14 +175,25 @@ pub struct MonWriter {
     pub out_of_range: Vec<Overwrite>,
     /// an overwrite that landed in the implicit first `base` octets (recorded, not applied)
     pub into_base: Vec<Overwrite>,
+    /// a journalling writer: every append also encodes a small AVP with the crate into a private side buffer (re-entrancy)
+    pub reentrant: bool,
+    pub journal: Vec<u8>,
 }
 
 impl MonWriter {
     pub fn with_prefix(p: &[u8]) -> Self {
-        MonWriter { data: p.to_vec(), base: 0, overwrites: Vec::new(), out_of_range: Vec::new(), into_base: Vec::new() }
+        MonWriter { data: p.to_vec(), ..Default::default() }
     }
     pub fn with_virtual_base(base: usize, p: &[u8]) -> Self {
-        MonWriter { data: p.to_vec(), base, overwrites: Vec::new(), out_of_range: Vec::new(), into_base: Vec::new() }
+        MonWriter { data: p.to_vec(), base, ..Default::default() }
+    }
+    fn journal_entry(&mut self, n: usize) {
+        if self.reentrant {
+            // re-entrant use of the crate from inside a Writer method
+            let mut side = rl2tp::common::VecWriter::new();
+            rl2tp::avp::AVP::FirmwareRevision((n as u16).into()).write(&mut side);
+            self.journal.extend_from_slice(&side.data);
+        }
     }
 }
 
@@ -194,6 +205,7 @@ impl Writer for MonWriter {
         self.base + self.data.len()
     }
     fn write_bytes(&mut self, bytes: &[u8]) {
+        self.journal_entry(bytes.len());
         self.data.extend_from_slice(bytes);
     }
     fn write_bytes_at(&mut self, bytes: &[u8], offset: usize) {
@@ -213,15 +225,85 @@ impl Writer for MonWriter {
         }
     }
     fn write_u8(&mut self, value: u8) {
+        self.journal_entry(1);
         self.data.push(value);
     }
     fn write_u16_be(&mut self, value: u16) {
+        self.journal_entry(2);
         self.data.extend_from_slice(&value.to_be_bytes());
     }
     fn write_u32_be(&mut self, value: u32) {
+        self.journal_entry(4);
         self.data.extend_from_slice(&value.to_be_bytes());
     }
     fn write_u64_be(&mut self, value: u64) {
+        self.journal_entry(8);
         self.data.extend_from_slice(&value.to_be_bytes());
+    }
+}
+
+// ---------------------------------------------------------------- a reader whose bytes() may decline
+
+/// The trait lets `bytes(n)` return None (a scatter/gather or ring-buffer reader may hold the octets without being able
+/// to lend them contiguously). FlakyReader serves everything like a slice cursor but declines the k-th `bytes` call
+/// (k counted over the reader and all its sub-readers). Decoding through it must still end in Ok or Err, never in a panic.
+pub struct FlakyReader<'a> {
+    d: &'a [u8],
+    st: Rc<RefCell<(u64, u64)>>, // (bytes calls so far, index of the call to decline)
+}
+
+impl<'a> FlakyReader<'a> {
+    pub fn new(d: &'a [u8], decline_at: u64) -> Self {
+        FlakyReader { d, st: Rc::new(RefCell::new((0, decline_at))) }
+    }
+    pub fn declined(&self) -> bool {
+        let s = self.st.borrow();
+        s.0 > s.1
+    }
+    fn take(&mut self, m: &'static str, n: usize) -> &'a [u8] {
+        if n > self.d.len() {
+            std::panic::panic_any(ContractViolation { method: m, requested: n, remaining: self.d.len() });
+        }
+        let (a, b) = self.d.split_at(n);
+        self.d = b;
+        a
+    }
+}
+
+impl<'a> Reader<&'a [u8]> for FlakyReader<'a> {
+    fn is_empty(&self) -> bool {
+        self.d.is_empty()
+    }
+    fn len(&self) -> usize {
+        self.d.len()
+    }
+    fn subreader(&mut self, n: usize) -> Self {
+        let a = self.take("subreader", n);
+        FlakyReader { d: a, st: self.st.clone() }
+    }
+    fn bytes(&mut self, n: usize) -> Option<&'a [u8]> {
+        let mut s = self.st.borrow_mut();
+        let idx = s.0;
+        s.0 += 1;
+        if idx == s.1 || n > self.d.len() {
+            return None;
+        }
+        drop(s);
+        Some(self.take("bytes", n))
+    }
+    unsafe fn read_u8_unchecked(&mut self) -> u8 {
+        self.take("u8", 1)[0]
+    }
+    unsafe fn read_u16_be_unchecked(&mut self) -> u16 {
+        u16::from_be_bytes(self.take("u16", 2).try_into().unwrap())
+    }
+    unsafe fn read_u32_be_unchecked(&mut self) -> u32 {
+        u32::from_be_bytes(self.take("u32", 4).try_into().unwrap())
+    }
+    unsafe fn read_u64_be_unchecked(&mut self) -> u64 {
+        u64::from_be_bytes(self.take("u64", 8).try_into().unwrap())
+    }
+    fn skip_bytes(&mut self, n: usize) {
+        self.take("skip", n);
     }
 }
